@@ -149,6 +149,10 @@ fn reference_key<V: Fv>(idx: usize, nmsgs: usize, vseed: u64, rep: &mut Report) 
 }
 
 pub fn interop(ctx: &Ctx, rep: &mut Report) {
+    if !crate::pool::keygen_responds::<F512>() {
+        rep.inconclusive("key generation did not return within 180 s (canary); reported as inconclusive, never as a violation".into());
+        return;
+    }
     let nm = ctx.sz(12, 40);
     // own keys: regression seeds (|G| > 127 on the pinned tree) first
     let mut s512: Vec<[u8; 32]> = super::c05::REGRESSION_512.iter().map(|&i| counter_seed(i)).collect();
